@@ -42,4 +42,51 @@ def padSrc (n N i : Int) : Option Int :=
 /-- index map of a crop: output sample `i` comes from source sample `i + cropLeft` -/
 def cropSrc (n N i : Int) : Int := i + cropLeft n N
 
+/-! ## NumPy helpers `fftfreq` / `fftshift` / `ifftshift` (the constants are re-read from NumPy's own source by the translator) -/
+
+/-- `np.fft.fftfreq(n)` numerators: `results[:split] = arange(p1lo, ..)`, `results[split:] = arange(p2lo, ..)` -/
+def fftfreqOf (split p1lo p2lo : Int) (k : Int) : Int := if k < split then p1lo + k else p2lo + (k - split)
+def npFftfreqSplit (n : Int) : Int := (n - 1) / 2 + 1
+def npFftfreqP1Lo : Int := 0
+def npFftfreqP2Lo (n : Int) : Int := -(n / 2)
+def npFftshiftBy (dim : Int) : Int := dim / 2
+def npIfftshiftBy (dim : Int) : Int := -(dim / 2)
+/-- `np.roll(x, s)` on an axis of length `n`: `out[i] = x[(i - s) mod n]` -/
+def rollSrc (n s i : Int) : Int := (i - s) % n
+
+/-- `forward_ft_unit(dx, n, shift)[i] * (n dx)` -/
+def ftUnitNumS (shift : Bool) (n i : Int) : Int := if shift then ftUnitNum n i else fftfreqNum n i
+
+/-! ## grids: `make_xy_grid`, `RichData.x / y`, `Slices` -/
+
+/-- sample `i` of `fftrange(s) * dx` -/
+def gridElem (s i : Int) (dx : Rat) : Rat := ((fftrangeLo s + i : Int) : Rat) * dx
+/-- `make_xy_grid((m, n), dx=dx)`: first / second returned array at `[i, j]` -/
+def gridX (_m n : Int) (dx : Rat) (_i j : Int) : Rat := gridElem n j dx
+def gridY (m _n : Int) (dx : Rat) (i _j : Int) : Rat := gridElem m i dx
+/-- `make_xy_grid((m, n), dx=dx, grid=False)`: first / second returned vector at `[k]` -/
+def vecX (_m n : Int) (dx : Rat) (k : Int) : Rat := gridElem n k dx
+def vecY (m _n : Int) (dx : Rat) (k : Int) : Rat := gridElem m k dx
+/-- `dx` used when `diameter=` is given -/
+def dxOfDiameter (d : Rat) (m n : Int) : Rat := d / ((max m n : Int) : Rat)
+
+/-- `RichData.slices`: the 1-D vectors handed to `Slices` (`x[0]`, `y[..., 0]`) -/
+def slicesXVec (X : Int → Int → Rat) (j : Int) : Rat := X 0 j
+def slicesYVec (Y : Int → Int → Rat) (i : Int) : Rat := Y i 0
+/-- `Slices.__init__`: centre indices; `am v len` stands for `np.argmin(abs(v))` of a vector of length `len` -/
+def slicesCentreY (am : (Int → Rat) → Int → Int) (m _n : Int) (_xv yv : Int → Rat) : Int := am yv m
+def slicesCentreX (am : (Int → Rat) → Int → Int) (_m n : Int) (xv _yv : Int → Rat) : Int := am xv n
+/-- `Slices.x` / `.y` data (two-sided: whole row / column through the centre; one-sided: from the centre on) -/
+def sliceXTwo {α : Type} (src : Int → Int → α) (cy _cx : Int) (j : Int) : α := src cy j
+def sliceYTwo {α : Type} (src : Int → Int → α) (_cy cx : Int) (i : Int) : α := src i cx
+def sliceXOne {α : Type} (src : Int → Int → α) (cy cx : Int) (j : Int) : α := src cy (cx + j)
+def sliceYOne {α : Type} (src : Int → Int → α) (cy cx : Int) (i : Int) : α := src (cy + i) cx
+def sliceXOneCoord (xv : Int → Rat) (cx : Int) (j : Int) : Rat := xv (cx + j)
+def sliceYOneCoord (yv : Int → Rat) (cy : Int) (i : Int) : Rat := yv (cy + i)
+
+/-! ## centroid -/
+
+/-- one component of `psf.centroid(unit='spatial')` given that axis' centre of mass `com` (in samples) -/
+def centroidSpatial (dx com : Rat) (n : Int) : Rat := dx * (com - ((centroidRef n : Int) : Rat))
+
 end Model.C04
